@@ -1374,6 +1374,12 @@ class Collection(object):
             filter = {}
         if not isinstance(filter, Mapping):
             filter = {'_id': filter}
+        if kwargs.get('collation'):
+            # Unlike find, there is no cursor to hand the collation over to.
+            raise_not_implemented(
+                'collation',
+                'The collation argument of find_one is valid but has not been implemented in '
+                'mongomock yet')
 
         try:
             return next(self.find(filter, *args, **kwargs))
